@@ -18,8 +18,8 @@ from . import extract, unit as U, runner
 VERIF = U.VERIF
 CONFIG = os.path.join(VERIF, 'contracts', 'properties.json')
 KNOWN = os.path.join(VERIF, 'known_findings.json')
-EVIDENCE = os.path.join(VERIF, 'evidence')
-REPLAYS = os.path.join(VERIF, 'replays')
+EVIDENCE = os.path.join(U.OUT, 'evidence')
+REPLAYS = os.path.join(U.OUT, 'replays')
 
 TRUST_RE = re.compile(r'external_body|assume_specification|\baxiom\s+fn\b|external_type_specification|#\[verifier::external\]')
 FORBIDDEN_RE = re.compile(r'\bassume\s*\(|\badmit\s*\(')
@@ -177,6 +177,9 @@ def write_json(path, obj):
 
 
 def main(argv):
+    import atexit
+    import shutil
+    atexit.register(lambda: shutil.rmtree(U.BUILD, ignore_errors=True))
     if not argv:
         print(__doc__)
         return 2
